@@ -58,7 +58,7 @@ func (p *c24parent) GetValue(_ context.Context, k []byte) ([]byte, error) {
 func VerifC24() {
 	ctx := context.Background()
 	nKeys := verifParam("keys", 2, c24MaxKeys)
-	nTxs := 2 + verifChoose("txs", verifParam("maxTxs", 2, c24MaxTxs)-1)
+	nTxs := 2 + verifChoose("txs", verifParam("maxTxs", 2, 2)-1)
 	p := &c24parent{failKey: -1}
 	for k := 0; k < nKeys; k++ {
 		if verifChoose("parentHas", 2) == 1 {
